@@ -25,18 +25,32 @@ ASSUMPTIONS = ['chunksize >= 4 x matchlength (IDL documentation; what spheregrou
 @st.composite
 def case_strategy(draw):
     ml = 10 ** (draw(st.integers(-40, 15)) / 10.0) * (1 + 0.1 * draw(G.unitf))
-    pts = draw(G.point_sets(ml))
-    if pts['family'] == 'allsky':
+    fam = draw(st.sampled_from(['cluster', 'cluster', 'seam', 'seam', 'polar', 'allsky', 'lattice', 'copy', 'chain', 'polar-ring', 'polar-ring']))
+    if fam == 'polar-ring':
+        ml = min(max(ml, 0.05), 3.0)
+    if fam == 'allsky':
         ml = max(ml, 0.5)
+    pts = draw(G.point_sets(ml, families=[fam]))
     cs = draw(st.sampled_from([None, None, 4.0, 4.0, 5.0, 8.0, 16.0, 30.0]))
     ra1, dec1 = pts['ra1'], pts['dec1']
     eff = max(4.0 * ml, 0.1) if cs is None else cs * ml
     safe = G.safe_chunksize(ra1, dec1, eff)
     chunksize = None if (cs is None and safe == eff) else safe
+    mm = draw(st.sampled_from([1, 1, 2, 3]))
+    if draw(st.integers(0, 40)) == 0:
+        # a crowded field: one first-list point with > 127 partners inside the match length and a large maxmatch
+        # (counters of matches per point must not be narrower than the number of partners)
+        k = draw(st.sampled_from([130, 140]))
+        c = (pts['ra1'][0], pts['dec1'][0])
+        cosd = max(math.cos(math.radians(c[1])), 1e-3)
+        pts['ra2'] = [G._wrap(c[0] + 0.3 * ml * math.cos(0.7 * i) * (i / float(k)) / cosd) for i in range(k)]
+        pts['dec2'] = [G._clipdec(c[1] + 0.3 * ml * math.sin(0.7 * i) * (i / float(k))) for i in range(k)]
+        mm = draw(st.sampled_from([128, 129, 200]))
+        pts['family'] = pts['family'] + '+crowded'
     order = draw(st.permutations(list(range(len(ra1)))))
     pts['ra1'] = [ra1[i] for i in order]
     pts['dec1'] = [dec1[i] for i in order]
-    return dict(pts, ml=ml, chunksize=chunksize, maxmatch=draw(st.sampled_from([1, 1, 2, 3])))
+    return dict(pts, ml=ml, chunksize=chunksize, maxmatch=mm)
 
 
 def pairs_of(m1, m2):
@@ -117,7 +131,7 @@ def body(case):
 
 
 def classify(case):
-    return ['family:' + case['family'], 'chunksize:' + ('default' if case['chunksize'] is None else 'explicit'),
+    return ['family:' + case['family'].replace('+crowded', ''), 'crowded' if 'crowded' in case['family'] else 'sparse', 'chunksize:' + ('default' if case['chunksize'] is None else 'explicit'),
             'maxmatch:%d' % case['maxmatch'], 'ml:1e%d' % math.floor(math.log10(case['ml']))]
 
 
